@@ -12218,8 +12218,9 @@ int cg_simulation_type_write(int fn, int B, CGNS_ENUMT(SimulationType_t) Simulat
     base = cgi_get_base(cg, B);
     if (base==0) return CG_ERROR;
 
-     /* write or overwrite SimulationType_t to Base */
-    if (base->type) {
+     /* write or overwrite SimulationType_t to Base (a node holding
+        SimulationTypeNull has type 0 and an id) */
+    if (base->type || base->type_id != 0) {
         if (cg->mode==CG_MODE_WRITE) {
             cgi_error("Simulation type already defined under CGNSBase_t '%s'",
                    base->name);
